@@ -1,7 +1,7 @@
 (* C12 — events of every terminated run form a complete, well-nested span tree.
    Translation validation: every event stream the implementation produces for a generated execution is run
    through the checker wf_b of Events.v; the theorems below say what acceptance means. *)
-From HG Require Import Base Engine Exec Events EventsProofs EventsModel.
+From HG Require Import Base Engine Exec Events EventsProofs EventsModel Nested EventsTree EventsTreeProofs.
 
 (* every span is opened at most once and closed exactly as often as it is opened: every NodeStart
    has exactly one NodeEnd/NodeError, every RunStart exactly one RunEnd *)
@@ -68,3 +68,33 @@ Example C12_nonvacuous :
   wf_b false [ev KRunStart 0 None 1; ev KNodeStart 1 (Some 0) 5; ev KRunStart 2 (Some 1) 1; ev KNodeEnd 1 (Some 0) 5;
               ev (KRunEnd false) 2 (Some 1) 1; ev (KRunEnd false) 0 None 1] = false.
 Proof. vm_compute. repeat split; reflexivity. Qed.
+
+(* NESTED, MAPPED AND FAILING RUNS, TO ANY DEPTH.  A span tree (EventsTree.stree): a run span holds superstep groups of node
+   spans (a map run: one run span per item); a node span holds its RouteDecision and the run span(s) a GraphNode launches.
+   lin_root t is the stream a synchronous runner emits for t (depth first, ids in order of first use).  For EVERY well-shaped
+   tree it is accepted by the checker, with the root run's status ... *)
+Theorem C12_model_nested : forall failed is_map kids,
+  forallb (shape_ok true) kids = true ->
+  wf_b failed (lin_root (ST (LRun failed is_map) kids)) = true.
+Proof. exact lin_root_wf. Qed.
+Print Assumptions C12_model_nested.
+
+(* ... every subtree leaves the checker's open spans as it found them (so subtrees compose, in any context) ... *)
+Theorem C12_subtree_frame : forall t under_run id q st,
+  shape_ok under_run t = true -> Fresh id st -> Ctx under_run q st -> q < id ->
+  exists st', crun st (lin id (Some q) t) = Some st' /\ c_open st' = c_open st /\ Fresh (id + size t) st'.
+Proof. exact tree_accepted. Qed.
+Print Assumptions C12_subtree_frame.
+
+(* ... and the tree of EVERY run of the nested engine model (tree_ng: one node span per call of every superstep, NodeError for
+   the calls that raise, inner runs / map runs under GraphNode spans; any graph, inputs, budget, depth, runner) is well shaped:
+   its stream is accepted.  The harness compares tree_ng with the implementation: event by event for synchronous runs
+   (lin_root), as trees up to the order within a superstep for asynchronous ones (sim). *)
+Theorem C12_model_tree_shape : forall d r fuel ng pv u, shape_ok u (tree_ng d r fuel ng pv) = true.
+Proof. exact tree_ng_shape. Qed.
+Print Assumptions C12_model_tree_shape.
+
+Theorem C12_model_nested_run : forall d r fuel ng pv,
+  wf_b (run_failed (tree_ng d r fuel ng pv)) (lin_root (tree_ng d r fuel ng pv)) = true.
+Proof. exact tree_ng_wf. Qed.
+Print Assumptions C12_model_nested_run.
